@@ -8,6 +8,9 @@ CHECKS = {
  "C14": dict(cat="model_checking", design="DESIGN.md section 5 C14",
    technique="TLA+ spec EnumNum.tla model-checked exhaustively with TLC; every TLC-generated enumeration replayed through the real compiler; recorded trace validated by TLC against the spec",
    text="TLC enumerates every legal enumeration of the bounded space the property names (thorough: <=5 root items, <=3 additions, numbers from {-1,0,1,2,5}; quick: <=3+2), checks the clause-20 invariants on the model, and validates the compiler's observed numbering (generated discriminants, IR indices, identifiers) for every one of them against the spec. Exhaustive within the bound, hence model checking rather than sampling."),
+ "C06": dict(cat="model_checking", design="DESIGN.md section 5 C06",
+   technique="TLA+ spec IntWidth.tla (symbolic boundary points) model-checked exhaustively with TLC; every TLC-generated bound pair replayed through the real compiler in six syntactic positions; recorded trace validated by TLC against the spec",
+   text="TLC enumerates all (lower<=upper) pairs of the 53-point boundary set x extension marker x position x form x assigned value (about 2.3*10^4 cases, the whole space the property names), checks that the model's selection is allowed, and validates for every case that the Rust type chosen by the compiler can hold every permitted value, is fixed-width only for finite non-extensible ranges, and that emitted literals fit their declared type. Exhaustive, both tiers."),
 }
 
 NOT_BUILT = "check not built yet (DESIGN.md section 13 build order)"
